@@ -577,6 +577,17 @@ def generate_coordinates_rule(ctx, rep, rule="distinct"):
                         good = True
                         tkey = info_["dest"]
                         table_init = info_["term"]
+        if not good:
+            # a copy of a constant table [0, 1, .., 255]: every card has at most 255 cells (the
+            # size is a u8), so the cells the draw can reach hold their own index
+            for (bi_, si_), (loc_, v_) in se.assigns.items():
+                vv = strip(v_)
+                if loc_[0] == "local" and vv[0] == "bytes" and bytes(vv[1]) == bytes(range(256)):
+                    lt_ = se.body.local_ty(loc_[1])
+                    if lt_ is not None and lt_.k == "array" and lt_.len == 256:
+                        good = True
+                        tkey = loc_
+                        table_init = v_
     rep.check(good, rule, fn, "identity-table", "table = [0, 1, ..., size-1]", "the index table is not initialised to the identity over all cells", body.loc())
     if not good:
         return
